@@ -436,6 +436,7 @@ def stepLink2 (s : St) (r : Nat) : St × Res :=
   | none => (s, .err)
   | some ra =>
     if !ra.linked then (s, .err)
+    else if ra.frozen then (s, .err)        -- ibc core: no channel handshake over a client that is not active
     else ({ s with chans := s.chans ++ [(s.nextChan, .second r)], nextChan := s.nextChan + 1 }, .ok)
 
 /-- the light client of rollapp `r` becomes canonical (`SetCanonicalClient`); no channel yet -/
@@ -458,6 +459,7 @@ def stepChopen (s : St) (r : Nat) (via : Nat) : St × Res :=
   | none => (s, .err)
   | some ra =>
     if !ra.linked then (s, .err)
+    else if ra.frozen then (s, .err)        -- ibc core (`ChanOpenInit` / `ChanOpenTry`): the client is not active; no identifier is spent
     else if via == 0 then
       if ra.chan.isSome then ({ s with nextChan := s.nextChan + 1 }, .err)
       else
